@@ -221,6 +221,12 @@ func runWorker(p *Prop, tier string, seed int64, shard, n int, budget time.Durat
 	c.Deadline = time.Now().Add(budget)
 	c.pin = pin
 	p.Run(c)
+	for _, f := range extras[p.ID] {
+		if c.TimeUp() {
+			break
+		}
+		f(c)
+	}
 	d := workerDone{T: "done", Evals: c.Evals, Cases: c.caseIdx, States: c.States, Transitions: c.Transitions, Execs: c.Execs,
 		Nontrivial: c.nontrivCnt, DedupeCap: c.dedupeCap, Samples: c.Samples, Counters: c.Counters, Notes: c.Notes, ViolCount: c.violCount, Exhaustive: c.Exhaustive, EngineErrs: c.EngineErrs}
 	for h := range c.outcomes {
@@ -665,7 +671,9 @@ func doReplay(path string) int {
 	c := newCtx(p, r.Tier, 0, 0, 1)
 	c.Deadline = time.Now().Add(time.Hour)
 	fmt.Printf("replaying %s key=%s\nrecorded: %s\n", r.Property, r.Key, r.What)
-	p.Replay(c, r.Case)
+	if !cliDiffReplay(c, r.Case) {
+		p.Replay(c, r.Case)
+	}
 	if len(c.viols) == 0 {
 		fmt.Println("replay: no violation reproduced")
 		return 0
